@@ -225,6 +225,11 @@ fn generate(entry: &str, ir: &Path, cfg: &Cfg, seed: u64, work: &Path, tag: &str
     let cwd = work.join(format!("cwd-{}-{}-s{}", tag, entry, seed));
     std::fs::create_dir_all(&cwd).unwrap();
     std::fs::create_dir_all(out.parent().unwrap()).unwrap();
+    // some runs generate into a directory that lies inside another cargo project (its ancestor
+    // holds a manifest): where the directory lives is not part of the definition
+    if seed % 3 == 2 {
+        std::fs::write(out.parent().unwrap().join("Cargo.toml"), "[package]\nname = \"enclosing\"\nversion = \"0.0.0\"\nedition = \"2021\"\n").unwrap();
+    }
     let probe_file = work.join(format!("probe-{}-{}-s{}", tag, entry, seed));
     // the definition itself is reached through a different path each time (its own copy in a
     // fresh directory; an absolute path for even seeds, one relative to the cwd for odd ones)
@@ -406,6 +411,23 @@ fn extra_programs(work: &Path) -> Vec<(String, PathBuf)> {
         .map(|(i, pkg)| json!({"type": "object", "object": {"typeName": t(&format!("Foo{}", i), pkg), "fields": [{"fieldName": "a", "type": s}]}}))
         .collect();
     let mut out = vec![("multi-package".to_string(), p), ("cycles-with-back-edge-doubles".to_string(), p2)];
+    // (4) distinct names of one package that map to the same module file (HTTPStatus / HttpStatus
+    //     -> http_status.rs; a type and a service; a type and an error): whichever definition wins
+    //     the file, it is the same one in every run
+    {
+        let mut types = vec![];
+        for i in 0..16 {
+            types.push(json!({"type": "object", "object": {"typeName": t(&format!("HTTPStatus{}", i), "com.verif.clash"), "fields": [{"fieldName": "upper", "type": s}]}}));
+            types.push(json!({"type": "object", "object": {"typeName": t(&format!("HttpStatus{}", i), "com.verif.clash"), "fields": [{"fieldName": "lower", "type": s}, {"fieldName": "n", "type": {"type": "primitive", "primitive": "INTEGER"}}]}}));
+        }
+        types.push(json!({"type": "enum", "enum": {"typeName": t("FooBar", "com.verif.clash"), "values": [{"value": "A"}]}}));
+        types.push(json!({"type": "alias", "alias": {"typeName": t("Foo_Bar", "com.verif.clash"), "alias": s}}));
+        let svc = json!({"serviceName": t("HttpStatus0", "com.verif.clash"), "endpoints": []});
+        let ir4 = json!({"version": 1, "errors": [], "types": types, "services": [svc], "extensions": {}});
+        let p4 = work.join("colliding-modules.json");
+        std::fs::write(&p4, serde_json::to_vec(&ir4).unwrap()).unwrap();
+        out.push(("colliding-module-names".to_string(), p4));
+    }
     for (i, ty) in hostile.into_iter().enumerate() {
         let ir3 = json!({"version": 1, "errors": [], "types": [ty], "services": [], "extensions": {}});
         let p3 = work.join(format!("odd-package-{}.json", i));
